@@ -6,7 +6,7 @@ import xml.etree.ElementTree as ET
 
 import numpy as np
 
-from vlib import ref_study
+from vlib import sched, ref_study
 
 PROPERTY = "C08"
 LEVEL = "exploration"
@@ -58,6 +58,11 @@ def cases(tier, seed):
         fmt, mode = combos[(i * 3) % len(combos)]
         out.append(dict(t="pix", fmt=fmt, mode=mode, w=R.choice([513, 600, 700, 800]), h=R.choice([513, 520, 700]), entry=R.choice(["tile_study_image", "builder", "subimage"]),
                         seed=R.randrange(1 << 30), prior=["same_dir", "same_tiling"][i % 2]))
+    # one tile cannot be stored (quota, disk full): the tiling must report it - or the tiles must still be right
+    for i in range(8 if tier == "quick" else 80):
+        fmt, mode = combos[(i * 5) % len(combos)]
+        out.append(dict(t="pix", fmt=fmt, mode=mode, w=R.choice([300, 513, 700]), h=R.choice([300, 513, 600]), entry=R.choice(["tile_study_image", "builder", "subimage"]),
+                        seed=R.randrange(1 << 30), io_fault=True))
     for i in range(8 if tier == "quick" else 60):
         out.append(dict(t="pix", fmt="png", mode=R.choice(["RGB", "RGBA"]), w=R.choice(sizes), h=R.choice(sizes), entry="cli", seed=R.randrange(1 << 30)))
         out.append(dict(t="pix", fmt="fits", mode="F32", w=R.choice(sizes), h=R.choice(sizes), entry="cli", seed=R.randrange(1 << 30)))
@@ -158,6 +163,14 @@ def case_sub(spec):
     for (ix, iy, w, h) in cands:
         s = t.compute_for_subimage(ix, iy, w, h)
         n += 1
+        if n % 3 == 0:
+            # the tiling travels: to a worker process (pickle, as multi-image tiling does), or is copied
+            import copy
+            import pickle
+
+            how = R.choice(["pickle", "pickle-hi", "copy", "deepcopy"])
+            s = dict(pickle=lambda o: pickle.loads(pickle.dumps(o, 2)), **{"pickle-hi": lambda o: pickle.loads(pickle.dumps(o, pickle.HIGHEST_PROTOCOL))},
+                     copy=copy.copy, deepcopy=copy.deepcopy)[how](s)
         if s._tile_levels != g["levels"] or s._p2n != g["p2n"]:
             probs.append("sub-tiling of %dx%d changed levels/p2n" % (W, H))
         _check_tiling(s, w, h, g, g["gx0"] + ix, g["gy0"] + iy, w, h, probs)
@@ -297,6 +310,37 @@ def case_pix(spec, workdir):
         img_fmt = R.choice([fmt, fmt, None, "fits" if fmt != "fits" else "npy", "png" if mode in ("RGB", "RGBA") and fmt != "png" else fmt])
         img = Image.from_array(arr, default_format=img_fmt)
         b = Builder(pio)
+        if spec.get("io_fault"):
+            import errno
+
+            tl = sorted(ref_study.tiles_for_rect(g["gx0"] + ox, g["gy0"] + oy, w, h))
+            ftx, fty = R.choice(tl)
+            from vlib import tilegen as _tg
+
+            rel = _tg.tile_relpath((g["levels"], ftx, fty), fmt)
+            fired = []
+            sched.failpoint("image.py", "save", OSError(errno.EDQUOT, "Disk quota exceeded (injected)"), count=1,
+                            when=lambda L: str(L.get("path_or_stream")).endswith(rel), on_fire=lambda: fired.append(1))
+            try:
+                if entry == "tile_study_image":
+                    tile_study_image(img, pio)
+                elif entry == "builder":
+                    b.tile_base_as_study(img)
+                else:
+                    StudyTiling(canvas_w, canvas_h).compute_for_subimage(ox, oy, w, h).tile_image(img, pio)
+                reported = False
+            except OSError:
+                reported = True
+            finally:
+                sched.clear_failpoints()
+            if not fired:
+                return dict(status="inconclusive", detail="the write of tile (%d,%d) was never reached" % (ftx, fty))
+            r = dict(counters={"pix_cases": 1, "io_faults_injected": 1, "io_faults_reported": int(reported)}, nontrivial=True, sample=dict(spec=spec, failing_tile=[ftx, fty]))
+            if not reported and not os.path.exists(os.path.join(out, rel)):  # (an implementation that retried and stored the tile would be fine)
+                r.update(status="violation", key="study-pixels:write-error-swallowed",
+                         detail="tile (%d,%d,%d) could not be stored (EDQUOT inside Image.save) yet %s returned normally: the tile is %s" % (
+                             g["levels"], ftx, fty, entry, "missing" if not os.path.exists(os.path.join(out, rel)) else "present"))
+            return r
         if shared_tiling is not None:
             shared_tiling.tile_image(img, pio)
             (StudyTiling(canvas_w, canvas_h) if entry == "subimage" else shared_tiling).apply_to_imageset(b.imgset)
